@@ -26,9 +26,10 @@
 
     Entry points: [serve] = heimdall's own HTTP server (origin-form target), [serve_envoy] = Envoy
     ext_authz, [serve_xfu] = HTTP server with the target handed over in X-Forwarded-Uri (the
-    proxy's own request goes to [own]).  Inside the guard of C08-F1 everything below except
-    sections 1 and 5's invariance theorems still holds: only WHICH rule is found depends on the
-    spelling; the found rule always matches the path as it is spelled (section 4). *)
+    proxy's own request goes to [own]).  Inside the guard of C08-F1 everything below except the
+    four [C08_reencoding_invariant*] theorems (sections 1, 4, 6) still holds: only WHICH rule is
+    found depends on the spelling; the found rule always matches the path as it is spelled
+    (section 5).  [accepted_spec], [expected_wire] and the guards are defined in C08/Spec.v. *)
 From HV Require Import Base.Prelude Base.GoUrl Base.GoUrlFacts C08.Model C08.Proofs.
 
 Local Open Scope string_scope.
@@ -261,7 +262,7 @@ Theorem C08_F4_envoy_upstream_refuted :
 Proof. exact F4_envoy_upstream_witness. Qed.
 Print Assumptions C08_F4_envoy_upstream_refuted.
 
-(** * 4. Which rule, which captured values, which answer — position by position
+(** * 5. Which rule, which captured values, which answer — position by position
 
     [accepted_spec rules p rid cs up] (C08/Proofs.v): the accepted request was matched by a rule
     [r] with id [rid] through one of its path expressions [t] that matches the path as it is
@@ -293,25 +294,45 @@ Print Assumptions C08_accepted_request_xfu.
 
 (** the precondition answer, for mixed rule sets: if every path expression that matches the
     path as it is spelled belongs to an `off` rule, a path with an encoded slash is answered with
-    the precondition error (400 from net/http aside) — or with "no rule" when no default rule is
-    configured and no expression accepts it *)
+    the precondition error (400 from net/http aside) — or with "no rule", but only when no default
+    rule is configured and every such expression carries path_params (pathParamMatcher reports a
+    mismatch for a path with an encoded slash under `off`, the lookup backtracks; also when nothing
+    matches at all).  Either way the request is rejected, never accepted. *)
 Theorem C08_precondition_answer : forall rules dflt host q p,
   p <> "*" -> guard_F4 p = false -> enc_slash p = true ->
   (forall r t, In r rules -> In t (r_routes r) -> rmatch (rt_pat t) (segs_of p) = true -> r_setting r = Off) ->
   serve repaired rules dflt host p q = Precondition \/ serve repaired rules dflt host p q = BadRequest \/
-  (dflt = false /\ serve repaired rules dflt host p q = NoRule).
+  (dflt = false /\ serve repaired rules dflt host p q = NoRule /\
+   forall r t, In r rules -> In t (r_routes r) -> rmatch (rt_pat t) (segs_of p) = true -> rt_params t <> []).
 Proof. exact precondition_http. Qed.
 Print Assumptions C08_precondition_answer.
 
 Theorem C08_precondition_answer_envoy : forall rules dflt host q p,
-  is_empty p = false -> enc_slash p = true ->
+  has_prefix "/" p = true -> enc_slash p = true ->
   (forall r t, In r rules -> In t (r_routes r) -> rmatch (rt_pat t) (segs_of p) = true -> r_setting r = Off) ->
   serve_envoy repaired rules dflt host p q = Precondition \/
-  (dflt = false /\ serve_envoy repaired rules dflt host p q = NoRule).
+  (dflt = false /\ serve_envoy repaired rules dflt host p q = NoRule /\
+   forall r t, In r rules -> In t (r_routes r) -> rmatch (rt_pat t) (segs_of p) = true -> rt_params t <> []).
 Proof. exact precondition_envoy. Qed.
 Print Assumptions C08_precondition_answer_envoy.
 
-(** * 5. Delivery through X-Forwarded-Uri (decision mode behind a proxy) *)
+(** the answers are reached: the precondition error; "no rule" for an `off` rule with path_params
+    and no default rule (the same request with a default rule: precondition error); an accepted
+    request through X-Forwarded-Uri *)
+Theorem C08_precondition_nonvacuous :
+  serve repaired w_rules_F2 false "h" "/a%2Fb" "" = Precondition /\
+  serve repaired w_rules_F3 false "h" "/api/a%2Fb" "" = NoRule /\
+  serve repaired w_rules_F3 true "h" "/api/a%2Fb" "" = Precondition /\
+  exists up, serve_xfu repaired w_rules_nd false "h" "/zz-own" "/files/a%2fb/c%20d" "x=1" =
+             Accepted "nd" false [("rest", "a%2Fb/c d")] up.
+Proof. exact precondition_nonvacuous. Qed.
+Print Assumptions C08_precondition_nonvacuous.
+
+(** * 6. Delivery through X-Forwarded-Uri (decision mode behind a proxy)
+
+    The forwarded value is an origin-form target whose path starts with exactly one '/' and has no
+    '#' (the scheme/authority forms url.Parse also accepts, and an empty forwarded path, are outside
+    the model: see the assumptions of the check). *)
 
 Theorem C08_reencoding_invariant_xfu : forall rules dflt host own q p p',
   reenc p p' -> has_prefix "/" p = true -> guard_F1 rules p p' = false ->
